@@ -70,6 +70,7 @@ CaseResult run_static(const RunCtx &ctx, TapeReader &t, unsigned size_hint) {
     if (ctx.prop == "C07") o.max_n = size_t(1) << 22; // upper levels with >= 2^15 segments are themselves built in chunks
     o.xkeys = ctx.x("xkeys");
     o.xthreads = ctx.x("xthreads");
+    o.xprocs = ctx.x("xprocs");
     std::vector<K> keys = gen_keys<K>(t, o, meta);
     const size_t n = keys.size();
     const bool c01 = ctx.prop == "C01", c02 = ctx.prop == "C02", c07 = ctx.prop == "C07";
@@ -87,6 +88,7 @@ CaseResult run_static(const RunCtx &ctx, TapeReader &t, unsigned size_hint) {
         if (!xk.empty()) {
             res.xdata.emplace_back("xkeys", xk);
             res.xdata.emplace_back("xthreads", std::to_string(meta.threads));
+            res.xdata.emplace_back("xprocs", std::to_string(meta.procs));
         }
     }
     if (!ctx.execute) return res;
